@@ -15,6 +15,8 @@ use vcore::{enumerate as en, Check, Stats};
 
 const SIGMA_TXT: &[&str] = &[
     "a", "\"", "\\", " ", "\t", "\n", "\r", "\u{0}", "\u{8}", "\u{7f}", "é", "\u{2028}", "'", "/",
+    // white space for Unicode / ASCII classifications, ordinary characters for GraphQL
+    "\u{c}", "\u{a0}",
 ];
 
 #[derive(Clone, Copy, PartialEq, Eq, Debug)]
